@@ -10,7 +10,7 @@ PROP = {
             "in random order (remove_file_by_uri, 1/5 update_file_by_uri(u, None)) + optional re-submissions of survivors; every string of the dump is scanned; "
             "distinct = hash of (texts, config, setup, steps); non-trivial = >= 1 file removed, >= 1 survivor, >= 50 strings scanned",
     "min_nontrivial": {"quick": 500, "thorough": 10000},
-    "max_secs": {"quick": 60, "thorough": 1000},
+    "max_secs": {"quick": 600, "thorough": 1500},
     "require_clauses": ["a:no-path-of-removed-file", "b:no-symbol-or-doc-of-removed-file", "c:census-released", "step:remove", "step:remove-by-none"],
     "assumptions": COMMON_ASSUME + [
         "analysis level only (EmmyLuaAnalysis API): workspace symbols / completion of the LSP layer are represented by the index sections of the dump (globals, types, members, modules)",
